@@ -239,6 +239,12 @@ func (p *parser) typeText(stops ...string) string {
 	return b.String()
 }
 
+// builtins whose arguments at the given positions are Go types, not expressions
+var typeArgPositions = map[string]map[int]bool{
+	"alloc": {0: true}, "made": {0: true}, "framed": {0: true}, "isType": {1: true}, "implements": {1: true}, "box": {1: true},
+	"conv": {1: true, 2: true}, "emptyset": {0: true},
+}
+
 var binPrec = map[string]int{
 	"<==>": 1, "==>": 2, "||": 4, "&&": 5,
 	"==": 6, "!=": 6, "<": 6, "<=": 6, ">": 6, ">=": 6,
@@ -355,6 +361,23 @@ func (p *parser) primary() Expr {
 		}
 		if p.isOp("(") {
 			p.p++
+			if pos, ok := typeArgPositions[t.s]; ok {
+				var a []Expr
+				i := 0
+				for !p.isOp(")") {
+					if pos[i] {
+						a = append(a, EIdent{p.typeText(",", ")")})
+					} else {
+						a = append(a, p.expr(0))
+					}
+					if p.isOp(",") {
+						p.p++
+					}
+					i++
+				}
+				p.expectOp(")")
+				return ECall{t.s, a}
+			}
 			return ECall{t.s, p.args(")")}
 		}
 		if p.isOp("{") && unicode.IsUpper(rune(t.s[0])) {
@@ -469,6 +492,7 @@ type LoopSpec struct {
 	Inv   []*Clause
 	Decr  []*Clause
 	Steps []Stmt
+	Init  []Stmt
 }
 
 type Contract struct {
@@ -828,6 +852,12 @@ func parseSpecFile(path string) (*SpecFile, error) {
 						return nil, fail("%v", err)
 					}
 					ls.Steps = append(ls.Steps, st...)
+				case "init":
+					st, err := parseStmts(rest)
+					if err != nil {
+						return nil, fail("%v", err)
+					}
+					ls.Init = append(ls.Init, st...)
 				default:
 					return nil, fail("unknown loop clause %q", f[1])
 				}
